@@ -23,7 +23,7 @@ import c01_gen as G
 import c01_decks as D
 
 THEOREMS = ['C01_flag_den', 'C01_expand_surfs_den', 'C01_optimise_den',
-            'C01_to_t4_cell_sound', 'C01_to_t4_cell_emptyref_refuted',
+            'C01_to_t4_cell_sound',
             'C01_convert_cellref', 'C01_cells', 'C01_partition_partial',
             'C01_prune_sound_partial']
 TRUSTED = [
@@ -194,7 +194,7 @@ def run(res, tier, seed, proofs_ok):
 
 def run_exhaustive(res, rng):
     '''Every tree over 2 surfaces (4 literals) with <= 3 internal nodes of
-    arity <= 2 and with <= 2 internal nodes of arity <= 3; 40 000 random trees
+    arity <= 2 and with <= 2 internal nodes of arity <= 3; 15 000 random trees
     with exactly 4 internal nodes (the full set has > 4e5 members for arity 2).'''
     from collections import OrderedDict
     trees = []
@@ -204,7 +204,7 @@ def run_exhaustive(res, rng):
         trees += [t for t in G.all_trees(n, max_arity=3)
                   if any(len(k[1]) == 3 for k in walk(t))]
     res.count('exhaustive:enumerated', len(trees))
-    trees += [G.random_tree_n(rng, 4) for _ in range(40000)]
+    trees += [G.random_tree_n(rng, 4) for _ in range(15000)]
     cases = []
     for tree in trees:
         cells = OrderedDict()
@@ -214,7 +214,7 @@ def run_exhaustive(res, rng):
                       'u0': 4, 'u1': 5, 'cnt0': 2, 'rn': None,
                       'skipped': [], 'partition': False})
     res.count('exhaustive:trees', len(cases))
-    run_pipeline_stream(res, rng, cases, 'exhaustive', chunk=2000)
+    run_pipeline_stream(res, rng, cases, 'exhaustive', chunk=400)
 
 
 def walk(tree):
